@@ -28,6 +28,9 @@ type Opts struct {
 	MaxExpr          uint64      `json:"max_expr,omitempty"`
 	InitState        [][2]string `json:"init_state,omitempty"`
 	UseReader        bool        `json:"use_reader,omitempty"`
+	// StatsCarry is the ExprCnt already present in the Stats value handed to the
+	// Statistics option (a Stats value reused from an earlier parse).
+	StatsCarry uint64 `json:"stats_carry,omitempty"`
 }
 
 // ErrElem is one element of the error list as the glue sees it.
@@ -104,6 +107,7 @@ type CallResult struct {
 	Aborted   bool           `json:"aborted,omitempty"`  // stopped by the step cap
 	Overflow  bool           `json:"overflow,omitempty"` // stopped by the event cap
 	Backward  bool           `json:"backward,omitempty"` // globalStore counter not monotone
+	Nested    int            `json:"nested,omitempty"`   // re-entrant parses made by code blocks
 	Events    []kernel.Event `json:"events,omitempty"`
 	Injected  []InjectedInfo `json:"injected,omitempty"`
 	ctx       *kernel.Ctx
@@ -134,7 +138,7 @@ func (p *Parser) Exec(c *Call, cl *simrt.Client) *CallResult {
 	simrt.Yield(simrt.YEntry)
 	val, err, esc, cnt := p.Parse("f.txt", c.Input, &c.Opts, ctx)
 	simrt.Yield(simrt.YExit)
-	r := &CallResult{ctx: ctx, ExprCnt: cnt, Steps: cl.Steps - start, Aborted: cl.Aborted, Overflow: ctx.Overflow, Backward: ctx.Backward}
+	r := &CallResult{ctx: ctx, ExprCnt: cnt, Steps: cl.Steps - start, Aborted: cl.Aborted, Overflow: ctx.Overflow, Backward: ctx.Backward, Nested: ctx.NestedRuns}
 	r.Value = kernel.Render(val)
 	r.ValueNil = val == nil
 	r.ErrNil = err == nil
